@@ -399,3 +399,10 @@ class GraphLoop:
                                          % (g.spec, g.states[s], iv))
                 n += 1
         return n
+
+
+def _wnames(spec_json):
+    """debug helper: register names/order as seen by a worker"""
+    from .fhdl_step import _signame
+    st = _stepper(spec_json)
+    return [(_signame(s), s.nbits) for s in st.regs]
